@@ -398,7 +398,7 @@ func runC02(a vh.Args, o *vh.Oracle, r *vh.Result) error {
 	rng := vh.NewRand(a.Seed)
 	nseq, npar := 150, 320
 	if a.Tier == "thorough" {
-		nseq, npar = 1500, 12000
+		nseq, npar = 1500, 5000
 	}
 	for i := 0; i < nseq; i++ {
 		mn, av, mx := c02Triple(rng)
@@ -460,7 +460,7 @@ func runC02(a vh.Args, o *vh.Oracle, r *vh.Result) error {
 	}
 	ncs := 40
 	if a.Tier == "thorough" {
-		ncs = 1200
+		ncs = 600
 	}
 	for i := 0; i < ncs; i++ {
 		if err := c02Stream(a, r, rng); err != nil {
@@ -469,7 +469,7 @@ func runC02(a vh.Args, o *vh.Oracle, r *vh.Result) error {
 	}
 	ntr := 70
 	if a.Tier == "thorough" {
-		ntr = 6000
+		ntr = 1500
 	}
 	if err := c02Trace(a, o, r, rng, ntr); err != nil {
 		return err
